@@ -46,6 +46,7 @@ SecAuditLogType verifcap
 SecAuditLog /dev/null
 SecAuditLogParts ABHKZ
 SecAction "id:4,phase:1,pass,nolog,ctl:ruleRemoveTargetById=3;ARGS:a4"
+SecRule ARGS:a "@rx ^x3" "id:7,phase:1,pass,nolog,ctl:auditLogParts=-B"
 SecRule ARGS "@rx ^x(\d+)" "id:1,phase:2,pass,log,capture,t:lowercase,setvar:tx.n=+%{tx.1}"
 SecRule ARGS "@pm foo bar" "id:2,phase:2,pass,log,t:lowercase,t:trim"
 SecRule ARGS:/^a/|!ARGS:a1|!ARGS:a2|!ARGS:a3 "@rx y" "id:3,phase:2,pass,log"
@@ -213,6 +214,7 @@ func run(c *runner.Ctx) {
 		{"transaction + WAF build/close", 12, b3},
 		{"2 transactions + WAF build/close", 3, b3},
 		{"2 threads x 2 transactions, pooled objects recycled across threads", 24, b3 - 1},
+		{"2 threads each building and closing a WAF with shared patterns", 33, b3},
 	}
 	for si, sc := range scenarios {
 		// the scenarios are split over the workers of a variant by schedule prefix: the
@@ -248,6 +250,8 @@ func run(c *runner.Ctx) {
 			switch sc.threads {
 			case 2, 22:
 				chosen = bodies[:2]
+			case 33:
+				chosen = []func(){bodies[2], bodies[2]}
 			case 24:
 				// each thread runs its transaction twice; the pool shim hands the object a
 				// thread has closed to whichever thread asks next
@@ -288,13 +292,15 @@ func run(c *runner.Ctx) {
 			if res.Deadlock == "" {
 				want := soloAudit
 				switch sc.threads {
+				case 33:
+					want = ""
 				case 12:
 					if out[0] != solo[0] {
 						report("cross-talk", fmt.Sprintf("transaction 0 under this schedule:\n%s--- alone:\n%s", out[0], solo[0]))
 					}
 					want = ""
 				default:
-					for i := 0; i < 2; i++ {
+					for i := 0; i < 2 && sc.threads != 33; i++ {
 						if out[i] != solo[i] {
 							report("cross-talk", fmt.Sprintf("transaction %d under this schedule:\n%s--- alone:\n%s", i, out[i], solo[i]))
 						}
